@@ -44,6 +44,8 @@ type Profile struct {
 	// IntArithOnOutputs allows arithmetic / int functions over integers produced by plugins
 	// (known finding K3 while open).
 	IntArithOnOutputs bool
+	// OutputsWaitAll makes every output wait (wait-optional) for all steps to be over.
+	OutputsWaitAll bool
 	// TagHeavy places trees of tags in most `any` fields and outputs (C15).
 	TagHeavy bool
 	// RichInput adds generated input fields (bounds, defaults, nested objects, maps).
@@ -179,14 +181,20 @@ func (g *genCtx) genExpr(typ string, depth int, label string) *Expr {
 		}
 	}
 	if g.p.PreferProduced > 0 && rapid.IntRange(0, 99).Draw(g.t, label+".likely?") < g.p.PreferProduced {
-		var lk []source
+		var lk, lkSteps []source
 		for _, c := range cands {
 			if g.likely(c) {
 				lk = append(lk, c)
+				if c.expr.K != "in" {
+					lkSteps = append(lkSteps, c)
+				}
 			}
 		}
 		if len(lk) > 0 {
 			cands = lk
+		}
+		if len(lkSteps) > 0 && rapid.IntRange(0, 3).Draw(g.t, label+".stepref?") > 0 {
+			cands = lkSteps // dataflow between steps is what the profile wants to see
 		}
 	}
 	s := cands[rapid.IntRange(0, len(cands)-1).Draw(g.t, label+".src")]
@@ -197,6 +205,23 @@ func (g *genCtx) genExpr(typ string, depth int, label string) *Expr {
 		g.label("ref:engine-output")
 	}
 	return s.expr
+}
+
+// choose picks a source, preferring (with the profile's probability) sources that the scripted
+// outcomes so far will produce.
+func (g *genCtx) choose(cands []source, label string) source {
+	if g.p.PreferProduced > 0 && rapid.IntRange(0, 99).Draw(g.t, label+".likely?") < g.p.PreferProduced {
+		var lk []source
+		for _, c := range cands {
+			if g.likely(c) {
+				lk = append(lk, c)
+			}
+		}
+		if len(lk) > 0 {
+			cands = lk
+		}
+	}
+	return cands[rapid.IntRange(0, len(cands)-1).Draw(g.t, label)]
 }
 
 // likely reports whether the source will probably be produced given the scripted outcomes so far.
@@ -437,6 +462,18 @@ func GenCase(t *rapid.T, p Profile, prop string) *Case {
 		}
 		g.prog.Outputs = append(g.prog.Outputs, o)
 	}
+	if p.OutputsWaitAll {
+		// every output additionally waits (wait-optional) for every step to be over, so that the run
+		// does not end while consumers are still on their way
+		for _, o := range g.prog.Outputs {
+			if o.Val.K != "map" {
+				continue
+			}
+			for _, s := range g.prog.Steps {
+				o.Val.Set("w_"+s.ID, &Val{K: "waitopt", Expr: &Expr{K: "stage", Step: s.ID, Stage: "outputs"}})
+			}
+		}
+	}
 	c.Script = g.script
 	for l := range g.labels {
 		c.Labels = append(c.Labels, l)
@@ -461,7 +498,7 @@ func (g *genCtx) genOutputLeaf(label string) *Val {
 	if rapid.IntRange(0, 9).Draw(t, label+".stage?") == 0 {
 		if c := g.pick("stage", false); len(c) > 0 {
 			g.label("ref:whole-stage")
-			return ExprVal(c[rapid.IntRange(0, len(c)-1).Draw(t, label+".stsrc")].expr)
+			return ExprVal(g.choose(c, label+".stsrc").expr)
 		}
 	}
 	typ := rapid.SampledFrom(kinds).Draw(t, label+".type")
@@ -534,7 +571,7 @@ func (g *genCtx) genTag(label string, inStep bool) *Val {
 		kinds = append(kinds, "softopt")
 	}
 	kind := rapid.SampledFrom(kinds).Draw(t, label+".tagkind")
-	src := objs[rapid.IntRange(0, len(objs)-1).Draw(t, label+".tagsrc")]
+	src := g.choose(objs, label+".tagsrc")
 	g.label("tag:" + kind)
 	switch kind {
 	case "waitopt", "softopt":
@@ -607,7 +644,7 @@ func (g *genCtx) genStep(c *Case, i int, wide bool) {
 			if in.Get("any") == nil {
 				objs := append(g.pick("obj", false), g.pick("map", false)...)
 				if len(objs) > 0 {
-					in.Set("any", ExprVal(objs[rapid.IntRange(0, len(objs)-1).Draw(t, lbl+".anysrc")].expr))
+					in.Set("any", ExprVal(g.choose(objs, lbl+".anysrc").expr))
 				}
 			}
 		}
@@ -616,7 +653,7 @@ func (g *genCtx) genStep(c *Case, i int, wide bool) {
 			c = append(c, g.pick("stage", false)...)
 			c = append(c, g.pick("obj", false)...)
 			if len(c) > 0 {
-				s.WaitFor = ExprVal(c[rapid.IntRange(0, len(c)-1).Draw(t, lbl+".waitsrc")].expr)
+				s.WaitFor = ExprVal(g.choose(c, lbl+".waitsrc").expr)
 				g.label("field:wait_for")
 			}
 		}
